@@ -267,7 +267,9 @@ func run(casesP, outP string, seed int64) error {
 		}
 		// ---- the request
 		q := metric
-		if c.Req.Fn != "" {
+		if c.Req.Fn == "sum" {
+			q = "sum(" + metric + ")"
+		} else if c.Req.Fn != "" {
 			q = fmt.Sprintf("%s(%s[%ds])", c.Req.Fn, metric, c.Req.R*15)
 		}
 		startS := t0/1000 + int64(c.Req.St)*15
@@ -325,6 +327,9 @@ func run(casesP, outP string, seed int64) error {
 			} else {
 				for _, s := range resp.Data.Result {
 					sn, ok := jobOf[s.Metric["job"]]
+					if c.Req.Fn == "sum" && len(s.Metric) == 0 {
+						sn, ok = 0, true // the aggregated series
+					}
 					if !ok {
 						kind = "unknown-series"
 						break
@@ -379,7 +384,8 @@ func run(casesP, outP string, seed int64) error {
 			fired[qn]++
 		} else {
 			if kind == "" {
-				kind = diffKind(defM, got)
+				// what changed with respect to the code the specification transcribes
+				kind = diffKind(codedM, got)
 			}
 			sig, mk = "unexplained|"+fnName(c.Req.Fn)+"|"+kind, "unexplained"
 			stats["answers_unexplained"]++
